@@ -30,6 +30,7 @@ type MarkSpec struct {
 	Glob  string
 	N     int
 	Label string
+	Wild  bool // inherited from a wildcard contract: need not match anything in this particular function
 }
 
 type AnchorAssert struct {
